@@ -232,7 +232,7 @@ package db
 //@ load-for C19: internal/db/description, internal/db/id
 //@ discipline no-reach from (*DB).patchSchema, (*DB).updateSchema, (*DB).setActiveSchemaVersion to (datastore.Txn).Datastore, (datastore.Txn).Headstore, (datastore.Txn).Blockstore, (datastore.Txn).Encstore tags C19
 //@ // switching the active version saves the target as active and at most one other version as inactive
-//@ ghost colSaves int
+//@ ghost colSaves mathint
 //@ extern description.SaveCollection(ctx, col) -> (e)
 //@   ensures colSaves == old(colSaves) + 1
 //@   modifies colSaves
